@@ -6,6 +6,71 @@ DRV, MODE = "drv_opt", "grammar"
 LISTER_ID = "C05-lister-not-preserving"
 
 
+def _alphabet(sexp):
+    """characters of the literals in a rule-set s-expression (hex-coded), plus a blank when WHITESPACE is defined."""
+    import re, binascii
+    chars = []
+    for h in re.findall(r"\((?:str|ins|pushlit) ([0-9a-f]+)\)", sexp) + re.findall(r"\(skip((?: [0-9a-f]+)+)\)", sexp):
+        for hh in h.split():
+            try:
+                for ch in binascii.unhexlify(hh).decode():
+                    if ch not in chars:
+                        chars.append(ch)
+            except Exception:
+                pass
+    # case-insensitive literals: the other case of their letters comes first
+    swapped = []
+    for hh in re.findall(r"\(ins ([0-9a-f]+)\)", sexp):
+        try:
+            for ch in binascii.unhexlify(hh).decode():
+                if ch.swapcase() != ch and ch.swapcase() not in swapped:
+                    swapped.append(ch.swapcase())
+        except Exception:
+            pass
+    chars = swapped[:2] + [c for c in chars if c not in swapped[:2]]
+    for extra, cond in ((" ", "WHITESPACE" in sexp), ("#", "COMMENT" in sexp), ("1", "ASCII_" in sexp), ("z", True)):
+        if cond and extra not in chars:
+            chars.append(extra)
+    return chars[:6]
+
+
+def search_real_pass(ctx, cname, syntactic, max_cases=400, maxlen=3):
+    """The real pass output differs from the Lean pass. Search for a concrete input on which the reference
+    denotation of the original rule set and of the REAL output differ (D lines of the model driver)."""
+    import itertools, re, binascii
+    reqs, meta = [], []
+    for (op, imp, mod) in sorted(syntactic, key=lambda t: (len(t[0]), t[0]))[:max_cases]:
+        w = op.split(" ", 3)
+        if len(w) < 4 or not imp.startswith("(("):
+            continue
+        ex, rules_in, rules_out = w[1], w[3], imp
+        names = re.findall(r"\(rule (\S+) ", rules_in)
+        alpha = _alphabet(rules_in)
+        inputs = [""] + ["".join(t) for n in range(1, maxlen + 1) for t in itertools.product(alpha, repeat=n)]
+        inputs = inputs[:160]
+        hexs = " ".join(binascii.hexlify(i.encode()).decode() or "-" for i in inputs)
+        for name in names[:6]:
+            reqs.append(f"D {ex} {rules_in} {name} {hexs}"); reqs.append(f"D {ex} {rules_out} {name} {hexs}")
+            meta.append((op, imp, name, inputs))
+    if not reqs:
+        return None
+    d = os.path.join(ctx.rundir, cname, "search"); os.makedirs(d, exist_ok=True)
+    opsf, outf = os.path.join(d, "ops.txt"), os.path.join(d, "model.txt")
+    open(opsf, "w").write("\n".join(reqs) + "\n")
+    run_model(MODE, opsf, outf)
+    res = read_lines(outf)
+    for k, (op, imp, name, inputs) in enumerate(meta):
+        if 2 * k + 1 >= len(res):
+            break
+        a, b = res[2 * k].split(" | "), res[2 * k + 1].split(" | ")
+        if "bad-op" in res[2 * k] or "bad-op" in res[2 * k + 1] or len(a) != len(b):
+            continue
+        for j, (x, y) in enumerate(zip(a, b)):
+            if x != y and "fuel" not in (x, y):
+                return (op, imp, name, binascii.hexlify(inputs[j].encode()).decode() or "-", x, y)
+    return None
+
+
 def run(ctx):
     frag, problems = proof_leg(ctx, MODULE)
     allcs, stats, found_input = [], {}, False
@@ -49,6 +114,12 @@ def run(ctx):
                 ctx.violation({"kind": "an optimizer pass changes the meaning of a grammar: the reference denotation of the rule set and of its image under the (real, syntactically verified) pass differ",
                                "features": fs, "pass": op.split(" ")[2], "case": f"{head}) {parts[0]} " + " ".join(parts[1 + j] for j in idx[:3]),
                                "differing_inputs_hex": [parts[1 + j] for j in idx[:10]], "model_verdict": mod[:200], "failing_lines_in_run": len(semantic)})
+                found_input = True
+            elif syntactic and (hit := search_real_pass(ctx, c.name, syntactic)):
+                op, imp, rule, inp, before, after = hit
+                ctx.violation({"kind": "an optimizer pass (its REAL output, which no longer equals the Lean transcription) changes the meaning of a grammar: the reference denotation of the rule set and of the pass's output differ",
+                               "features": fs, "pass": op.split(" ")[2], "case": op, "pass_output": imp[:3000], "start_rule": rule, "input_hex": inp,
+                               "meaning_before": before[:500], "meaning_after": after[:500], "mismatches_in_run": len(syntactic)})
                 found_input = True
             elif syntactic:
                 op, imp, mod = min(syntactic, key=lambda t: (len(t[0]), t[0]))
